@@ -54,8 +54,16 @@ class Scenario:
             t0.put_bytes("lock/held/info", raw.encode())
         scen = self
 
+        self.last_peek = {}
+        self.user_examined = {}
+
         class TLockDir(lockdir.LockDir):
             who = None
+
+            def peek(self):
+                info = super().peek()
+                scen.last_peek[self.who] = info.nonce if info is not None else None
+                return info
 
             def force_break(self, dead_holder_info):
                 scen.examined[self.who] = dead_holder_info.nonce
@@ -111,6 +119,26 @@ class Scenario:
                 return "done"
             return prog
 
+        from breezy import ui as _ui
+
+        class ConfirmingUI(_ui.SilentUIFactory):
+            """The user looks at the holder shown in the prompt and says yes."""
+
+            def confirm_action(self, prompt, confirmation_id, prompt_kwargs):
+                me = w.me()
+                if me is not None:
+                    scen.user_examined[me] = scen.last_peek.get(me)
+                return True
+
+            def get_boolean(self, prompt):
+                return True
+
+            def show_message(self, msg):
+                pass
+
+        self._old_ui = _ui.ui_factory
+        _ui.ui_factory = ConfirmingUI()
+
         def breaker(p):
             l = self.L[p]
 
@@ -118,12 +146,13 @@ class Scenario:
                 for _ in range(max_attempts):
                     try:
                         self.att[p] += 1
-                        info = l.peek()
-                        if info is None:
+                        n0 = len(self.fb_calls)
+                        self.user_examined.pop(p, None)
+                        l.break_lock()          # peek, ask the user, force_break(what was shown)
+                        if self.last_peek.get(p) is None and len(self.fb_calls) == n0:
                             self.results[p] = "nothing_to_break"
                             continue
-                        r = l.force_break(info)
-                        self.results[p] = "broke" if r is not None else "already_released"
+                        self.results[p] = "broke"
                     except LockBreakMismatch:
                         self.results[p] = "mismatch"
                     except sched.Killed:
@@ -189,6 +218,8 @@ class Scenario:
         if w.done(p):
             return None
         before = self.raw_held_nonce()
+        live_before = [q for q in self.lockers if q != p and self.alive[q] and self.L[q].is_held
+                       and getattr(self.L[q], "nonce", None) == before and before is not None]
         if fault:
             nxt = w.procs[p]["seq"] + 1
             w.faults[(p, nxt)] = sched.transport_error
@@ -203,6 +234,13 @@ class Scenario:
                     self.dir_owner[dst] = [e["p"], self.att[e["p"]]]
                 if src == "held":
                     self._moved_held(e["p"], dst, before)
+        # a live holder's lock disappeared from held/ by something that is not a break (force_break renames to broken.*)
+        if live_before and self.raw_held_nonce() != before:
+            broke = any(e["op"] == "rename" and e["res"] == "ok" and e["path"].endswith("/held")
+                        and e["to"].split("/")[-1].startswith("broken.") for e in entries)
+            if not broke and not self.broken_live:
+                self.live_removed.append({"actor": p, "victim": live_before[0],
+                                          "ops": [[e["op"], e["path"].split("/")[-1], e["res"]] for e in entries]})
         return entries[0] if entries else None
 
     def _moved_held(self, actor, dst, nonce):
@@ -210,14 +248,18 @@ class Scenario:
         owner = self.noncemap.get(nonce, ["unknown", 0])
         live_holder = any(q != actor and self.alive[q] and self.L[q].is_held and getattr(self.L[q], "nonce", None) == nonce
                           for q in self.lockers)
-        if live_holder:
-            self.broken_live = True
         if dst.startswith("broken."):
-            if self.examined.get(actor) != nonce:
-                self.wrong_breaks.append({"breaker": actor, "examined": self.noncemap.get(self.examined.get(actor)),
+            if live_holder:
+                self.broken_live = True
+            shown = self.user_examined.get(actor) if actor in self.breakers else self.examined.get(actor)
+            if shown is None:
+                shown = self.examined.get(actor)
+            if shown != nonce:
+                self.wrong_breaks.append({"breaker": actor, "examined": self.noncemap.get(shown),
                                           "removed": owner, "removed_holder_live": live_holder})
 
     wrong_breaks = None
+    live_removed = None
 
     def crash(self, p):
         self.alive[p] = False
@@ -288,6 +330,8 @@ class Scenario:
             srv.stop_server()
 
     def close(self):
+        from breezy import ui as _ui
+        _ui.ui_factory = self._old_ui
         self.w.close()
 
 
@@ -304,6 +348,22 @@ def _copy_tree(src, dst, path):
             _copy_tree(src, dst, p)
         else:
             dst.put_bytes(p, src.get_bytes(p))
+
+
+def run_monitors(sc, monitors, schedule, p, op):
+    hs = sc.holders()
+    if len(hs) > 1 and not sc.broken_live:
+        monitors("mutex", {"holders": hs}, schedule)
+    for wb in sc.wrong_breaks:
+        monitors("wrong_break", wb, schedule)
+    sc.wrong_breaks = []
+    for lr in sc.live_removed:
+        monitors("live_lock_removed_without_break", lr, schedule)
+    sc.live_removed = []
+    for fp, nonce in sc.failed_attempts:
+        if nonce is not None and sc.raw_held_nonce() == nonce:
+            monitors("failed_attempt_holds", {"proc": fp, "after": [p, op]}, schedule)
+    sc.failed_attempts = []
 
 
 def spec_projection(state):
@@ -333,6 +393,7 @@ def replay(ctx, params, behaviour, monitors, backing_url=None, check_recover=Fal
     sc = Scenario(params["Lockers"], params["Breakers"], params["MaxAttempts"], params["Steal"], params["DeadStart"],
                   backing_url)
     sc.wrong_breaks = []
+    sc.live_removed = []
     sc.dir_owner = {}
     schedule = []
     n = 0
@@ -359,16 +420,7 @@ def replay(ctx, params, behaviour, monitors, backing_url=None, check_recover=Fal
             if real != want:
                 ctx.drift("after %s/%s real %s != spec %s" % (p, op, real, want), schedule)
             # ---- verdict monitors, on the real execution only
-            hs = sc.holders()
-            if len(hs) > 1 and not sc.broken_live:
-                monitors("mutex", {"holders": hs}, schedule)
-            for wb in sc.wrong_breaks:
-                monitors("wrong_break", wb, schedule)
-            sc.wrong_breaks = []
-            for fp, nonce in sc.failed_attempts:
-                if nonce is not None and sc.raw_held_nonce() == nonce:
-                    monitors("failed_attempt_holds", {"proc": fp, "after": [p, op]}, schedule)
-            sc.failed_attempts = []
+            run_monitors(sc, monitors, schedule, p, op)
             if check_recover:
                 why = sc.snapshot_recoverable()
                 if why:
@@ -399,7 +451,7 @@ SAFE = ("TypeOK", "MutualExclusion", "HolderOnDisk", "StealOnlyDead", "Recoverab
 
 
 # ----------------------------------------------------------------------------- E3: code -> spec
-def random_run(ctx, rng, params, backing_url=None, p_crash=0.0, p_fault=0.0, max_steps=400):
+def random_run(ctx, rng, params, backing_url=None, p_crash=0.0, p_fault=0.0, max_steps=400, monitors=None):
     """Drive the real code with a random schedule (not derived from the spec); returns the recorded trace."""
     tmpd = None
     if backing_url is None:
@@ -410,15 +462,26 @@ def random_run(ctx, rng, params, backing_url=None, p_crash=0.0, p_fault=0.0, max
     sc = Scenario(params["Lockers"], params["Breakers"], params["MaxAttempts"], params["Steal"], params["DeadStart"],
                   backing_url)
     sc.wrong_breaks = []
+    sc.live_removed = []
     sc.dir_owner = {}
     events = []
+    schedule = []
     faults = crashes = 0
+    # half of the runs switch process at every operation, half run a process for a burst of operations
+    # (coarse races such as "B locks completely between two operations of A" are rare under uniform switching)
+    bursty = rng.random() < 0.5
+    cur, left = None, 0
     try:
         for _ in range(max_steps):
             live = [p for p in sc.L if sc.alive[p] and not sc.w.done(p)]
             if not live:
                 break
-            p = rng.choice(live)
+            if bursty and cur in live and left > 0:
+                p = cur
+                left -= 1
+            else:
+                p = rng.choice(live)
+                cur, left = p, rng.choice((0, 1, 2, 3, 3, 4, 5, 8))
             if crashes < params["MaxCrashes"] and rng.random() < p_crash:
                 sc.crash(p)
                 crashes += 1
@@ -433,6 +496,12 @@ def random_run(ctx, rng, params, backing_url=None, p_crash=0.0, p_fault=0.0, max
                 op = "fault" if e["res"] == "FAULT" else {"put_bytes_non_atomic": "put", "get_bytes": "get"}.get(e["op"], e["op"])
             pr = sc.project()
             events.append({"p": p, "op": op, "held": pr["held"], "tmpdirs": pr["tmpdirs"], "lockHeld": pr["lockHeld"]})
+            schedule.append([p, op])
+            if monitors is not None:
+                run_monitors(sc, monitors, schedule, p, op)
+        if monitors is not None:
+            for bad in sc.check_steals():
+                monitors("steal_not_dead", bad, schedule)
     finally:
         sc.close()
         if tmpd:
